@@ -1,6 +1,6 @@
 // Correspondence harness, core: drives the real library (tree build, lookup, sequential executor)
 // from the line protocol of DESIGN.md §4.1 and prints the same canonical text as the Lean driver.
-// Build: g++ -std=c++17 -I/repo/src -DDIM=<d> -DPERIODIC=<0|1> [-DUSE_OMP -fopenmp mock_gomp.cpp]
+// Build: g++ -std=c++17 -I/repo/src -DDIM=<d> -DPERIODIC=<0|1> [-DUSE_OMP -fopenmp mock_gomp.cpp] [-DUSE_STARPU -Imock_starpu mock_starpu.cpp]
 #include <iostream>
 #include <sstream>
 #include <vector>
@@ -23,6 +23,9 @@
 #ifdef USE_OMP
 #include "algorithms/openmp/tbfopenmpalgorithm.hpp"
 #include "mock_gomp.h"
+#endif
+#ifdef USE_STARPU
+#include "algorithms/smstarpu/tbfsmstarpualgorithm.hpp"      // <starpu.h> resolves to harness/mock_starpu/starpu.h
 #endif
 
 #include "kernels/counterkernels/tbfinteractioncounter.hpp"
@@ -371,6 +374,20 @@ int main(){
             algo->execute(*cs.tree, int(kv(ts, "flags", 63)));
             long nt = 0; mock_gomp_history(&nt);
             std::cout << "T " << nt << "\n";
+            flushLog();
+        }
+#endif
+#ifdef USE_STARPU
+        else if(op == "exec" && ts.size() > 1 && ts[1] == "starpu"){
+            // the StarPU executor under the mock runtime: sched=<0 fifo|1 lifo|2 random|3 priority-inverted|4 priority> seed=<n> workers=<k>
+            mock_starpu_configure(int(kv(ts, "sched", 0)), (unsigned long)kv(ts, "seed", 1), int(kv(ts, "workers", 1)));
+            const long before = mock_starpu_total_run();
+            {
+                std::unique_ptr<TbfSmStarpuAlgorithm<RealType, Kernel, SpaceIndex>> algo(
+                    new TbfSmStarpuAlgorithm<RealType, Kernel, SpaceIndex>(*cs.config, kv(ts, "upper", 2)));
+                algo->execute(*cs.tree, int(kv(ts, "flags", 63)));
+            }
+            std::cout << "T " << (mock_starpu_total_run() - before) << "\n";
             flushLog();
         }
 #endif
